@@ -10,6 +10,7 @@
 #include <deque>
 #include <fstream>
 #include <map>
+#include <mutex>
 #include <string>
 #include <type_traits>
 #include <vector>
@@ -24,9 +25,20 @@ constexpr int NT = SHIM_NT;
 struct Clock { unsigned c[NT]{}; };
 inline Clock join(Clock a, Clock const& b) { for (int i = 0; i < NT; ++i) a.c[i] = std::max(a.c[i], b.c[i]); return a; }
 inline bool leq(Clock const& a, Clock const& b) { for (int i = 0; i < NT; ++i) if (a.c[i] > b.c[i]) return false; return true; }
+#ifdef SHIM_MT
+// multi-threaded use (h_stop: a REAL backend thread): the logical thread id is per OS thread (-2 = not yet assigned: takes
+// g_default_thr at its first access), every access runs under one global mutex, and a load of a named object by a logical
+// thread first calls g_park outside that mutex (the harness parks the thread there until the script releases it).
+inline thread_local int g_thr = -2;
+inline int g_default_thr = 1;
+inline std::recursive_mutex g_mx;
+inline void (*g_park)(std::string const&, int) = nullptr;
+#else
 inline int g_thr = -1;                       // -1: set-up (constructor stores precede both threads)
+#endif
 inline Clock g_clk[NT];
 inline std::map<std::string, std::deque<long>> g_choices;   // per named object: message indexes for its next loads (0 = latest)
+inline std::map<std::string, long> g_sticky;                // per named object: index for every load once g_choices is used up
 inline bool g_bad_choice = false;
 inline std::ofstream g_out;
 inline std::map<void const*, std::string> g_names;
@@ -43,6 +55,22 @@ inline char const* mo_name(std::memory_order m)
   }
 }
 inline std::string name_of(void const* p) { auto it = g_names.find(p); return it == g_names.end() ? std::string{} : it->second; }
+#ifdef SHIM_MT
+inline std::unique_lock<std::recursive_mutex> enter(void const* p, bool is_load)
+{
+  if (g_thr == -2) g_thr = g_default_thr;
+  std::unique_lock<std::recursive_mutex> lk(g_mx);
+  if (is_load && g_thr >= 0 && g_park)
+  {
+    std::string const nm = name_of(p);
+    if (!nm.empty()) { lk.unlock(); g_park(nm, g_thr); lk.lock(); }
+  }
+  return lk;
+}
+#define SHIM_ENTER(p, is_load) auto shim_lk_ = shim::enter(p, is_load)
+#else
+#define SHIM_ENTER(p, is_load) (void)0
+#endif
 }
 
 namespace std
@@ -71,19 +99,23 @@ struct verif_atomic
   T load(std::memory_order mo = std::memory_order_seq_cst) const noexcept
   {
     auto* self = const_cast<verif_atomic*>(this);
+    SHIM_ENTER(this, true);
     if (shim::g_thr < 0) return h.back().val;
     int const t = shim::g_thr;
     std::string const nm = shim::name_of(this);
     size_t idx = h.size() - 1;
     auto cit = nm.empty() ? shim::g_choices.end() : shim::g_choices.find(nm);
-    if (cit != shim::g_choices.end() && !cit->second.empty())     // the script chooses what this load reads
+    auto sit = nm.empty() ? shim::g_sticky.end() : shim::g_sticky.find(nm);
+    bool const queued = cit != shim::g_choices.end() && !cit->second.empty();
+    if (queued || sit != shim::g_sticky.end())     // the script chooses what this load reads
     {
-      long c = cit->second.front();
-      cit->second.pop_front();
+      long c = queued ? cit->second.front() : sit->second;
+      if (queued) cit->second.pop_front();
       if (c > 0)
       {
         idx = static_cast<size_t>(c - 1);
-        if (idx >= h.size() || idx < lo(t)) { shim::g_bad_choice = true; idx = h.size() - 1; }
+        if (!queued && idx < h.size() && idx < lo(t)) idx = lo(t);      // a standing choice that has become too old: the oldest allowed
+        else if (idx >= h.size() || idx < lo(t)) { shim::g_bad_choice = true; idx = h.size() - 1; }
       }
     }
     self->view[t] = idx;
@@ -102,6 +134,7 @@ struct verif_atomic
   }
   void store(T v, std::memory_order mo = std::memory_order_seq_cst) noexcept
   {
+    SHIM_ENTER(this, false);
     if (shim::g_thr < 0) { h.back().val = v; return; }
     push(v, shim::is_rel(mo), shim::Clock{});
     std::string const nm = shim::name_of(this);
@@ -112,11 +145,16 @@ struct verif_atomic
   template <typename F>
   T rmw(F f, std::memory_order mo) noexcept
   {
+    SHIM_ENTER(this, false);
     if (shim::g_thr < 0) { T o = h.back().val; h.back().val = f(o); return o; }
     int const t = shim::g_thr;
     Msg const m = h.back();
     if (shim::is_acq(mo)) shim::g_clk[t] = shim::join(shim::g_clk[t], m.rel);
     push(f(m.val), shim::is_rel(mo), m.rel);
+    std::string const nm = shim::name_of(this);
+    if (!nm.empty())
+      shim::g_out << "{\"e\":\"acc\",\"t\":" << t << ",\"obj\":\"" << nm << "\",\"op\":\"rmw\",\"mo\":\"" << shim::mo_name(mo)
+                  << "\",\"idx\":" << h.size() << ",\"val\":" << as_ll(h.back().val) << "}\n";
     return m.val;
   }
   operator T() const noexcept { return load(); }
